@@ -35,13 +35,19 @@ func zzH_CLI() {
 	replies := make([][]byte, K)
 	done := make(chan *Call, 10)
 	for i := 0; i < K; i++ {
-		args[i] = vBytesN("args", 1)
+		// first byte: the issue index (lets the environment see the order on the wire)
+		args[i] = append([]byte{byte(i)}, vBytesN("args", 1)...)
 	}
 	vGo("issuer", func() {
 		for i := 0; i < K; i++ {
-			calls[i] = conn.Go("S.Echo", &args[i], &replies[i], done)
+			if vParam("cli.forms", 1) == 2 && vChoose("form", 2) == 1 {
+				calls[i] = conn.RoundTrip(&Call{ServiceMethod: "S.Echo", Args: &args[i], Reply: &replies[i], Done: done})
+			} else {
+				calls[i] = conn.Go("S.Echo", &args[i], &replies[i], done)
+			}
 		}
 	})
+	wireInOrder := true
 	failWith := make([]string, K)
 	emptyReply := make([]bool, K)
 	inOrder := true
@@ -64,6 +70,9 @@ func zzH_CLI() {
 				enc.NewCodec().Unmarshal(f, r)
 				got = append(got, rq{r.GetSeq(), r.GetArgs()})
 			}
+			if len(got[i].args) == 0 || got[i].args[0] != byte(i) {
+				wireInOrder = false
+			}
 		}
 		order := []int{0, 1, 2}[:K]
 		if K == 2 && vChoose("order", 2) == 1 {
@@ -76,12 +85,16 @@ func zzH_CLI() {
 			if x != i {
 				inOrder = false // a server without pipelining: outside C05's premise
 			}
+			issue := i // which call this request belongs to (first argument byte)
+			if len(got[i].args) > 0 && int(got[i].args[0]) < K {
+				issue = int(got[i].args[0])
+			}
 			if vChoose("fail", 2) == 1 {
-				failWith[i] = "E" + string(rune('0'+i))
-				m.deliver(zzResponseEnc(enc, got[i].seq, failWith[i], nil))
+				failWith[issue] = "E" + string(rune('0'+issue))
+				m.deliver(zzResponseEnc(enc, got[i].seq, failWith[issue], nil))
 			} else if vParam("cli.empty", 1) == 1 && vChoose("emptyreply", 2) == 1 {
 				// a handler whose reply encodes to zero bytes (e.g. an all-default pb message)
-				emptyReply[i] = true
+				emptyReply[issue] = true
 				m.deliver(zzResponseEnc(enc, got[i].seq, "", nil))
 			} else {
 				m.deliver(zzResponseEnc(enc, got[i].seq, "", zzReplyFor(got[i].args)))
@@ -106,6 +119,10 @@ func zzH_CLI() {
 					vAssert(vEqBytes(replies[i], zzReplyFor(args[i])), "reply-of-own-args")
 				}
 			}
+		}
+		if mode == 2 {
+			// client pipelining: one goroutine's requests reach the wire in issue order, whatever the call form
+			vAssert(wireInOrder, "pipelined-wire-order")
 		}
 		if mode == 2 && inOrder {
 			// client pipelining against a server that answers in order: completions arrive in issue order
